@@ -415,3 +415,14 @@ _run_c13f = run
 def run(ctx):  # noqa: F811
     _run_c13f(ctx)
     r13_9(ctx, ctx.model)
+
+
+_run_c13g = run
+
+
+def run(ctx):  # noqa: F811
+    _run_c13g(ctx)
+    from .refusal import refusal_rule
+    refusal_rule(ctx, "R13.10", [OPS + x for x in ("scaling_operator", "diagonal_operator", "sum_operator", "sandwich_operator", "block_diagonal_operator",
+                                                   "sampling_enabler", "inversion_enabler", "operator_adapter", "linear_operator", "endomorphic_operator")],
+                 "the covariance operators ('operators that cannot represent a covariance refuse to sample')", floor=6)
